@@ -214,9 +214,9 @@ pub fn suite(out: &mut Out, seed: u64, thorough: bool) {
 		src_line(out, a);
 	}
 	let kinds = ["sma", "wma", "hma", "rma", "ema", "dma", "dema", "tma", "tema", "wsma", "smm", "swma", "trima", "linreg", "vidya"];
-	let max = yata::core::PeriodType::MAX as u64;
+	let max = gen_max();
 	for k in kinds {
-		let mut ns: Vec<u64> = if max == 255 { (0..=256).collect() } else { vec![0, 1, 2, 254, 255, 256, 65535, 65536, max - 1, max] };
+		let mut ns: Vec<u64> = if max <= 255 { (0..=256).collect() } else { vec![0, 1, 2, 254, 255, 256, 65535, 65536, max - 1, max] };
 		ns.push(max.wrapping_add(1));
 		for n in ns {
 			ma_line(out, &format!("{}-{}", k, n));
